@@ -80,6 +80,14 @@ type c21World struct {
 	// shared input messages
 	tvs   []c21TV
 	docs  [][]byte
+	// jtrees are docs[0..2] decoded once: the decoded JSON value handed to ytypes.Unmarshal
+	// is an input message shared by every task that unmarshals it
+	jtrees []interface{}
+	// gpaths are the gNMI forms of paths, built once and shared by every GetNode caller
+	gpaths []*gpb.Path
+	// prefix shared by the TogNMINotifications callers that render under a prefix
+	pfxElems []*gpb.PathElem
+	pfxStrs  []string
 	reqs  []*gpb.SetRequest
 	roots []ygot.GoStruct // initial private roots of writer tasks (cloned per phase)
 }
@@ -185,7 +193,22 @@ func buildWorld(c *c21Case) *c21World {
 	for i := 0; i < 12; i++ {
 		p, _ := drawPath(&r, m)
 		w.paths = append(w.paths, p)
+		gp := model.GNMI(p)
+		if i%3 == 0 {
+			// as decoded from the wire
+			if b, err := proto.Marshal(gp); err == nil {
+				n := &gpb.Path{}
+				if proto.Unmarshal(b, n) == nil {
+					gp = n
+				}
+			}
+		}
+		w.gpaths = append(w.gpaths, gp)
 	}
+	w.pfxElems = make([]*gpb.PathElem, 2, 8)
+	w.pfxElems[0] = &gpb.PathElem{Name: "devices"}
+	w.pfxElems[1] = &gpb.PathElem{Name: "device", Key: map[string]string{"name": "r1"}}
+	w.pfxStrs = append(make([]string, 0, 8), "devices", "device[name=r1]")
 	// input messages come from a third tree so that they are schema-conforming
 	T3 := g.Tree(w.p.RootType(), w.sch).(ygot.GoStruct)
 	m3 := model.Walk(T3, w.sch, "")
@@ -220,6 +243,11 @@ func buildWorld(c *c21Case) *c21World {
 		t := g.Tree(w.p.RootType(), w.sch)
 		b, _ := json.Marshal(model.TreeJSON(reflect.ValueOf(t)))
 		w.docs = append(w.docs, b)
+		var jt interface{}
+		if err := json.Unmarshal(b, &jt); err != nil {
+			panic("C21: harness JSON does not parse: " + err.Error())
+		}
+		w.jtrees = append(w.jtrees, jt)
 	}
 	w.docs = append(w.docs, []byte(`{"no-such-top-level-node": {"x": 1}}`), []byte(`{"system": `))
 	for i := 0; i < 4 && len(w.tvs) > 0; i++ {
@@ -306,7 +334,7 @@ func factorPrefix(req *gpb.SetRequest, whole bool) {
 }
 
 var c21ReadOps = []string{"validate", "validate-leafref", "emitjson", "emitjson-rfc", "marshal7951", "construct", "tognmi", "tognmi-slice", "getnode", "getnode-wild", "diff", "diffatomic", "deepcopy", "encodetv", "evict"}
-var c21WriteOps = []string{"unmarshal", "unmarshal", "setnode", "setnode", "setnode-tol", "setreq", "setreq", "unmarshal-bad", "setnode-bad", "evict"}
+var c21WriteOps = []string{"unmarshal", "unmarshal", "unmarshal-tree", "setnode", "setnode", "setnode-tol", "setreq", "setreq", "unmarshal-bad", "setnode-bad", "evict"}
 
 func (p *c21Prop) genCase(seed uint64, tier string) *c21Case {
 	r := simrt.NewRng(simrt.Mix(seed, 21))
@@ -365,7 +393,21 @@ func (w *c21World) runOp(op Op, root ygot.GoStruct) string {
 			s, err := ygot.EmitJSON(w.T, &ygot.EmitJSONConfig{Format: ygot.Internal, SkipValidation: idx%2 == 0})
 			out = short(canonJSON([]byte(s))) + " " + normErr(err)
 		case "emitjson-rfc":
-			s, err := ygot.EmitJSON(w.T, &ygot.EmitJSONConfig{Format: ygot.RFC7951, SkipValidation: true, RFC7951Config: &ygot.RFC7951JSONConfig{AppendModuleName: idx%2 == 0}})
+			cfg := &ygot.RFC7951JSONConfig{AppendModuleName: idx%2 == 0}
+			switch (idx / 2) % 4 {
+			case 1:
+				cfg.PrependModuleNameIdentityref = true
+			case 2:
+				cfg.PreferShadowPath = true
+			case 3:
+				cfg.RewriteModuleNames = map[string]string{"verif-types": "verif-oc", "ctestschema": "ctestschema-rootmod"}
+			}
+			ec := &ygot.EmitJSONConfig{Format: ygot.RFC7951, SkipValidation: true, RFC7951Config: cfg}
+			if idx%5 == 0 {
+				ec.Indent = "\t"
+				ec.EscapeHTML = true
+			}
+			s, err := ygot.EmitJSON(w.T, ec)
 			out = short(canonJSON([]byte(s))) + " " + normErr(err)
 		case "marshal7951":
 			b, err := ygot.Marshal7951(w.T, &ygot.RFC7951JSONConfig{AppendModuleName: idx%2 == 0}, ygot.JSONIndent("  "))
@@ -375,19 +417,28 @@ func (w *c21World) runOp(op Op, root ygot.GoStruct) string {
 			b, _ := json.Marshal(m)
 			out = short(canonJSON(b)) + " " + normErr(err)
 		case "tognmi", "tognmi-slice":
-			ns, err := ygot.TogNMINotifications(w.T, 42, ygot.GNMINotificationsConfig{UsePathElem: op.K == "tognmi"})
+			ncfg := ygot.GNMINotificationsConfig{UsePathElem: op.K == "tognmi"}
+			if idx%3 == 0 {
+				// the prefix slices are shared by every caller (spare capacity: an append that
+				// does not copy first would write into them)
+				if ncfg.UsePathElem {
+					ncfg.PathElemPrefix = w.pfxElems
+				} else {
+					ncfg.StringSlicePrefix = w.pfxStrs
+				}
+			}
+			ns, err := ygot.TogNMINotifications(w.T, 42, ncfg)
 			var sb strings.Builder
 			for _, n := range ns {
 				sb.WriteString(canonNotif(n))
 			}
 			out = short([]byte(sb.String())) + " " + normErr(err)
 		case "getnode", "getnode-wild":
-			p := w.paths[pick(len(w.paths))]
 			var opts []ytypes.GetNodeOpt
 			if op.K == "getnode-wild" {
 				opts = append(opts, &ytypes.GetHandleWildcards{}, &ytypes.GetPartialKeyMatch{})
 			}
-			nodes, err := ytypes.GetNode(w.sch, w.T, model.GNMI(p), opts...)
+			nodes, err := ytypes.GetNode(w.sch, w.T, w.gpaths[pick(len(w.gpaths))], opts...)
 			var parts []string
 			for _, n := range nodes {
 				parts = append(parts, model.FromGNMI(nil, n.Path))
@@ -396,16 +447,27 @@ func (w *c21World) runOp(op Op, root ygot.GoStruct) string {
 			out = fmt.Sprintf("%d nodes %v %s", len(nodes), parts, normErr(err))
 		case "diff":
 			var opts []ygot.DiffOpt
-			switch idx % 3 {
+			switch idx % 5 {
 			case 1:
 				opts = append(opts, &ygot.DiffPathOpt{MapToSinglePath: true})
 			case 2:
 				opts = append(opts, &ygot.IgnoreAdditions{})
+			case 3:
+				opts = append(opts, &ygot.DiffPathOpt{PreferShadowPath: true})
+			case 4:
+				opts = append(opts, &ygot.DiffPathOpt{MapToSinglePath: true, PreferShadowPath: true}, &ygot.IgnoreAdditions{})
 			}
 			n, err := ygot.Diff(w.T, w.T2, opts...)
 			out = short([]byte(canonNotif(n))) + " " + normErr(err)
 		case "diffatomic":
-			ns, err := ygot.DiffWithAtomic(w.T, w.T2)
+			var opts []ygot.DiffOpt
+			switch idx % 3 {
+			case 1:
+				opts = append(opts, &ygot.DiffPathOpt{MapToSinglePath: true})
+			case 2:
+				opts = append(opts, &ygot.DiffPathOpt{PreferShadowPath: true})
+			}
+			ns, err := ygot.DiffWithAtomic(w.T, w.T2, opts...)
 			var sb strings.Builder
 			for _, n := range ns {
 				sb.WriteString(canonNotif(n))
@@ -442,6 +504,15 @@ func (w *c21World) runOp(op Op, root ygot.GoStruct) string {
 				opts = append(opts, &ytypes.IgnoreExtraFields{})
 			}
 			out = normErr(w.p.Unmarshal(d, root, opts...))
+		case "unmarshal-tree":
+			var opts []ytypes.UnmarshalOpt
+			if idx%3 == 0 {
+				opts = append(opts, &ytypes.IgnoreExtraFields{})
+			}
+			if idx%4 == 1 {
+				opts = append(opts, &ytypes.PreferShadowPath{})
+			}
+			out = normErr(ytypes.Unmarshal(w.sch, root, w.jtrees[pick(len(w.jtrees))], opts...))
 		case "setnode", "setnode-tol", "setnode-bad":
 			if len(w.tvs) == 0 {
 				out = "no values"
@@ -505,7 +576,7 @@ type c21TaskResult struct {
 func (w *c21World) isWriter(ops []Op) bool {
 	for _, o := range ops {
 		switch o.K {
-		case "unmarshal", "unmarshal-bad", "setnode", "setnode-tol", "setnode-bad", "setreq":
+		case "unmarshal", "unmarshal-tree", "unmarshal-bad", "setnode", "setnode-tol", "setnode-bad", "setreq":
 			return true
 		}
 	}
